@@ -1083,6 +1083,13 @@ def origins(fn, operand_or_local, through_fields=True, extra_transparent=None, f
                     og = Origin('upvar', fn, -1, e['f'])
                     out[og.key()] = og
                     return
+        # `match (a, b) { (Some(x), _) => .. }`: a field of a local tuple built in one place is that operand of the aggregate
+        proj = [e for e in p[1] if e != '*']
+        if proj and isinstance(proj[0], dict) and 'f' in proj[0] and 'v' not in proj[0]:
+            ds = [x for x in fn.defs().get(p[0], []) if x[2] != 'partial']
+            if len(ds) == 1 and ds[0][2] == 'assign' and ds[0][3]['k'] == 'agg' and ds[0][3].get('ak') == 'tuple' and proj[0]['f'] < len(ds[0][3]['ops']):
+                push_operand(ds[0][3]['ops'][proj[0]['f']])
+                return
         work.append(p[0])
 
     push_operand(operand_or_local)
@@ -1187,6 +1194,23 @@ def call_sites_of(prog, fid):
         prog._callers_idx = idx
     return idx.get(fid, [])
 
+
+
+def runs_exclusive(prog, root_id, owner='storage::core::Storage<', depth=3, _seen=None):
+    """the function runs while `&mut <owner>` is held: it takes `&mut owner` itself, or it is a non-public function whose every
+    call site lies in a function that does (helpers extracted from an exclusive initialisation)"""
+    _seen = _seen or set()
+    root = prog.fns.get(root_id)
+    if root is None or root_id in _seen:
+        return False
+    if root.argc >= 1 and root.locals[1]['s'].startswith('&mut ' + owner):
+        return True
+    if depth <= 0 or root.j.get('pub'):
+        return False
+    sites = [c for c in call_sites_of(prog, root_id) if c.bb in c.fn.reachable()]
+    if not sites:
+        return False
+    return all(runs_exclusive(prog, prog.fns[c.fn.id].root, owner, depth - 1, _seen | {root_id}) for c in sites)
 
 def origins_ip(prog, fn, operand, depth=4, _seen=None, **kw):
     """origins() expanded across closure upvars, coroutine stubs and (depth-limited) callers' arguments"""
